@@ -12,10 +12,12 @@ mod fam_conform;
 mod schema;
 mod fam_eval;
 mod fam_ext;
+mod fam_ffi;
 mod fam_partial;
 mod fam_pset;
 mod fam_slice;
 mod fam_store;
+mod fam_syntax;
 mod fam_tpe;
 mod fam_validate;
 mod gen;
@@ -70,6 +72,8 @@ fn family(name: &str) -> Option<(Runner, Driver)> {
         "tpe" => (fam_tpe::run, fam_tpe::drive),
         "batched" => (fam_batched::run, fam_batched::drive),
         "slice" => (fam_slice::run, fam_slice::drive),
+        "syntax" => (fam_syntax::run, fam_syntax::drive),
+        "ffi" => (fam_ffi::run, fam_ffi::drive),
         _ => return None,
     })
 }
